@@ -165,7 +165,13 @@ func (g *Gun) shootStep(step *Call, sample *netsample.Sample, ammoName string, t
 	stepVars["preprocessor"] = preprocVars
 
 	// Template
-	payloadJSON, err := g.templ.Apply(step.Payload, step.Metadata, templateVars, ammoName, step.Name)
+	// Templater renders metadata in place. Step metadata is shared between all instances and shots,
+	// so every shot should render its own copy.
+	metadataCopy := make(map[string]string, len(step.Metadata))
+	for k, v := range step.Metadata {
+		metadataCopy[k] = v
+	}
+	payloadJSON, err := g.templ.Apply(step.Payload, metadataCopy, templateVars, ammoName, step.Name)
 	if err != nil {
 		return fmt.Errorf("%s templater.Apply %w", op, err)
 	}
@@ -194,7 +200,7 @@ func (g *Gun) shootStep(step *Call, sample *netsample.Sample, ammoName string, t
 
 	ctx, cancel := context.WithTimeout(context.Background(), timeout)
 	defer cancel()
-	ctx = metadata.NewOutgoingContext(ctx, metadata.New(step.Metadata))
+	ctx = metadata.NewOutgoingContext(ctx, metadata.New(metadataCopy))
 	out, grpcErr := g.gun.Stub.InvokeRpc(ctx, &method, message)
 	code = grpcgun.ConvertGrpcStatus(grpcErr)
 	sample.SetProtoCode(code) // for setRTT inside
@@ -203,7 +209,7 @@ func (g *Gun) shootStep(step *Call, sample *netsample.Sample, ammoName string, t
 		g.gun.GunDeps.Log.Error("response error", zap.Error(err))
 	}
 
-	g.gun.Answ(&method, message, step.Metadata, out, grpcErr, code)
+	g.gun.Answ(&method, message, metadataCopy, out, grpcErr, code)
 
 	for _, postProcessor := range step.Postprocessors {
 		pp, err := postProcessor.Process(out, code)
